@@ -55,9 +55,12 @@ Definition ss_paths (ss : list sel) : list string := flat_map (sel_paths "") ss.
 
 Definition req_key_eqb (a b : string * opkind * string * list string * list string) : bool :=
   let '(u, k, p, ids, paths) := a in let '(u', k', p', ids', paths') := b in
-  String.eqb u u' && opkind_eqb k k' && String.eqb p p' && multiset_eqb String.eqb ids ids' &&
-  (* a received document that does not even parse (an empty fragment body was printed) is compared by its envelope only *)
-  (match paths' with ["<unparsable>"] => true | _ => multiset_eqb String.eqb paths paths' end).
+  (* a received document that does not even lex or parse (an empty fragment body, a Go-only escape) is compared by its
+     destination only *)
+  match paths' with
+  | ["<unparsable>"] => String.eqb u u'
+  | _ => String.eqb u u' && opkind_eqb k k' && String.eqb p p' && multiset_eqb String.eqb ids ids' && multiset_eqb String.eqb paths paths'
+  end.
 (* which ids share a document of a batched lookup depends on Go's map iteration order: batches are compared by size *)
 Definition batch_ids (b : nat) (ids : list string) : list string :=
   if Nat.leb 50 (List.length ids) || Nat.ltb 0 b then ["#" +++ nat_str (List.length ids)] else ids.
@@ -287,7 +290,17 @@ Definition check_e2e_case (c : e2e_case) : list (string * bool) :=
                       | Ok o => (* after a hard error, which of the remaining requests were already sent is up to the scheduler *)
                                 match r_data (oc_response o) with
                                 | None => true
-                                | Some _ => multiset_eqb req_key_eqb (map model_req_key (oc_requests o)) (map obs_req_key (obs_requests c))
+                                | Some _ =>
+                                    (* wildcard (unparsable) observations are matched last, and against what the exact ones leave *)
+                                    let obs := map obs_req_key (obs_requests c) in
+                                    let is_wild := fun k : string * opkind * string * list string * list string =>
+                                                     match snd k with ["<unparsable>"] => true | _ => false end in
+                                    let mdl := map model_req_key (oc_requests o) in
+                                    let exact_obs := filter (fun k => negb (is_wild k)) obs in
+                                    (* model requests that have an exact partner first *)
+                                    let mdl_sorted := filter (fun k => existsb (req_key_eqb k) exact_obs) mdl ++
+                                                      filter (fun k => negb (existsb (req_key_eqb k) exact_obs)) mdl in
+                                    multiset_eqb req_key_eqb mdl_sorted (exact_obs ++ filter is_wild obs)
                                 end
                       | Err _ => false end);
     ("corr.data", match m with
@@ -375,6 +388,11 @@ Definition check_e2e_case (c : e2e_case) : list (string * bool) :=
     ("prop.c15.directives_not_forwarded", forallb (fun r => negb (existsb has_directive (or_doc r))) (obs_requests c));
     ("prop.c15.vars_exact", forallb (fun r => seteq_str (or_varnames r) (dedupe_str (flat_map sel_vars (or_doc r))) &&
                                               seteq_str (or_declared r) (or_varnames r)) (obs_requests c));
+    (* C14: echo resolvers return the arguments they received; the client's values must come back (reference executor) *)
+    ("prop.c14.values_arrive", if ec_conforming c && nofault && match ec_perm c with None => true | Some _ => false end then
+        let '(j, es) := exec_op (ec_mono c) (ec_data c) (ec_vars c) (ec_fuel c) (root_of c) (o_sel (ec_op c)) in
+        json_eqb j (match obs_data c with Some d => d | None => JNull end)
+      else true);
     ("prop.c04.valid_subqueries", forallb or_valid (obs_requests c));
     ("prop.c04.optype", forallb (fun r => if or_is_lookup r then opkind_eqb (or_keyword r) OQuery && String.eqb (or_optype r) "query"
                                           else opkind_eqb (or_keyword r) (o_kind (ec_op c)) &&
@@ -394,6 +412,10 @@ Definition check_e2e_case (c : e2e_case) : list (string * bool) :=
                                match m with Ok o => forallb (fun rq => forallb gql_safe (rq_ids rq)) (oc_requests o) | Err _ => true end &&
                                forallb (fun e => forallb (fun kv => match snd kv with RvLeaf (JStr x) => if String.eqb (fst kv) "id" then gql_safe x else true | _ => true end) (e_fields e)) (ec_data c));
     ("guard.no_space_runs", negb (existsb has_space_run (flat_map sel_strings client_ss)));
+    (* plan.go:269,287: the key plumbing is read from the permission-filtered schema *)
+    ("guard.key_permitted", forallb (fun t => negb (match lookup t (g_is_boundary (ec_gen c)) with Some b => b | None => false end) ||
+                                              match kind_of fs t with None => true | Some _ => match field_ty fs t "id" with Some _ => true | None => false end end)
+                                    (flat_map (fun t => t :: possible_of S t) (flat_map types_used client_ss)));
     ("guard.recurring_ip", match m with Ok o => negb (existsb (fun st => ip_recurring st 0) (oc_plan o)) | Err _ => true end);
     (* --- features --- *)
     ("feat.multi_service", Nat.leb 2 (List.length (dedupe_str (map or_url (obs_requests c)))));
